@@ -6,5 +6,6 @@ pub mod model;
 pub mod pipe;
 pub mod rng;
 pub mod umask;
+pub mod umglue;
 pub mod world;
 pub mod wowm;
